@@ -80,8 +80,8 @@ def _rec_expected(fn, id_term):
 # -------------------------------------------------------------------- C01.1 ----
 def prim_syn_table(ctx, rid, strict_root=True):
     """K1: TypeDefPrimitive -> ::core::primitive::<lower>, Str -> <alloc>::string::String, 256-bit unimplemented"""
-    hits = q.fns_with_match_on(ctx.P, is_prim, GEN, ret_pred=lambda o: o == "syn::Type")
-    fn = q.anchor_fn(ctx, rid, "primitive table (match on TypeDefPrimitive in fn -> syn::Type)", hits)
+    hits = q.fns_with_match_on(ctx.P, is_prim, GEN, ret_pred=lambda o: o in ("syn::Type", "syn::TypePath"))
+    fn = q.anchor_fn(ctx, rid, "primitive table (match on TypeDefPrimitive in fn -> syn::Type / syn::TypePath)", hits)
     if fn is None:
         return
     b, ms = fn
@@ -589,12 +589,12 @@ def field_closures(ctx, rid):
     UNNAMED = "Iterator::all(P1,|1|{Option::is_none(C1_0.name)})"
     NMAP = "CompositeIRKind::Named(Iterator::collect(Iterator::map(P1,|1|{%s}))?)" % ANY
     UMAP = "CompositeIRKind::Unnamed(Iterator::collect(Iterator::map(P1,|1|{%s}))?)" % ANY
-    # decision normal form (conditions in alphabetical order): all-unnamed? then (all-named as well can only be the empty list, excluded above: either
-    # constructor is then unreachable) else all-named? else the mixed error; the `unreachable!()` of the source is decided away
+    # decision normal form (the question order with the fewest tests): empty? else all-named? else all-unnamed? else the mixed error; the
+    # `unreachable!()` of the source is decided away
     E = "slice::is_empty(P1)"
     NO = "CompositeIRKind::NoFields"
-    exp_sel = ("if(%s){Ok(if(%s){if(%s){%s}else{%s}}else{if(%s){%s}else{%s}})}else{if(%s){Ok(if(%s){%s}else{%s})}else{if(%s){Ok(%s)}else{Err(TypegenError::InvalidFields(%s))}}}"
-               % (UNNAMED, NAMED, E, NO, NMAP, E, NO, UMAP, NAMED, E, NO, NMAP, E, NO, ANY))
+    exp_sel = ("if(%s){Ok(%s)}else{if(%s){Ok(%s)}else{if(%s){Ok(%s)}else{Err(TypegenError::InvalidFields(%s))}}}"
+               % (E, NO, NAMED, NMAP, UNNAMED, UMAP, ANY))
     expect_term(ctx, rid, "kind-selection", fn["sp"], t, exp_sel,
                 "empty -> NoFields; mixed -> Err(InvalidFields); all named -> Named(order-preserving map); all unnamed -> Unnamed(order-preserving map)")
     # CompositeFieldIR::new is a plain constructor
@@ -613,7 +613,8 @@ def type_ir_tokens_fn(ctx, rid):
 
 
 def CA(x, fl):
-    return "if(%s){CompositeFieldIR::compact_attr(%s)}else{v1::None}" % (fl, x)
+    # the private helper that yields the attribute is looked through: `#[codec(compact)]` iff the flag is set and the field is compact
+    return "then((%s&&%s.is_compact),T[# [ codec ( compact ) ]]())" % (fl, x)
 
 
 def item_templates(ctx, rid):
@@ -673,9 +674,9 @@ def field_templates(ctx, rid, strict_alloc=True):
     SKIP = "then(%s,T[# [ codec ( skip ) ]]())" % FL
     exp_s = q.mk_match("P0.kind", [
         ("CompositeIRKind::NoFields", "if(let v1::Some($)=%s){T[( pub #0 )](%s@v1::Some.0)}else{T[]()}" % (PH, PH)),
-        ("CompositeIRKind::Named($)", "T[{ #( #0 , )* #1 }](Iterator::map(P0.kind@CompositeIRKind::Named.0,|1|{T[#0 pub #1 : #2](%s,C1_0.0,ToTokensWithSettings::to_token_stream(C1_0.1,%s))}),"
+        ("CompositeIRKind::Named($)", "T[{ #( #0 )* #1 }](Iterator::map(P0.kind@CompositeIRKind::Named.0,|1|{T[#0 pub #1 : #2 ,](%s,C1_0.0,ToTokensWithSettings::to_token_stream(C1_0.1,%s))}),"
                                       "Option::map(%s,|1|{T[#0 pub __ignore : #1](%s,C1_0)}))" % (CA("C1_0.1", FL), ST, PH, SKIP)),
-        ("CompositeIRKind::Unnamed($)", "T[( #( #0 , )* #1 )](Iterator::map(P0.kind@CompositeIRKind::Unnamed.0,|1|{T[#0 pub #1](%s,ToTokensWithSettings::to_token_stream(C1_0,%s))}),"
+        ("CompositeIRKind::Unnamed($)", "T[( #( #0 )* #1 )](Iterator::map(P0.kind@CompositeIRKind::Unnamed.0,|1|{T[#0 pub #1 ,](%s,ToTokensWithSettings::to_token_stream(C1_0,%s))}),"
                                         "Option::map(%s,|1|{T[#0 pub #1](%s,C1_0)}))" % (CA("C1_0", FL), ST, PH, SKIP))])
     expect_term(ctx, rid, "fields/struct", sf["sp"], Ns.term(sf["body"]), exp_s,
                 "unit: `(pub #marker)` iff marker; named: `{ #(#[codec(compact)]? pub name: ty,)* #[codec(skip)]? pub __ignore: marker }`; tuple likewise; "
@@ -685,16 +686,10 @@ def field_templates(ctx, rid, strict_alloc=True):
     FL2, ST2 = "P%d" % j_fl, "P%d" % j_st
     exp_e = q.mk_match("P0.kind", [
         ("CompositeIRKind::NoFields", "T[]()"),
-        ("CompositeIRKind::Named($)", "T[{ #( #0 , )* }](Iterator::map(P0.kind@CompositeIRKind::Named.0,|1|{T[#0 #1 : #2](%s,C1_0.0,ToTokensWithSettings::to_token_stream(C1_0.1,%s))}))" % (CA("C1_0.1", FL2), ST2)),
-        ("CompositeIRKind::Unnamed($)", "T[( #( #0 , )* )](Iterator::map(P0.kind@CompositeIRKind::Unnamed.0,|1|{T[#0 #1](%s,ToTokensWithSettings::to_token_stream(C1_0,%s))}))" % (CA("C1_0", FL2), ST2))])
+        ("CompositeIRKind::Named($)", "T[{ #( #0 )* }](Iterator::map(P0.kind@CompositeIRKind::Named.0,|1|{T[#0 #1 : #2 ,](%s,C1_0.0,ToTokensWithSettings::to_token_stream(C1_0.1,%s))}))" % (CA("C1_0.1", FL2), ST2)),
+        ("CompositeIRKind::Unnamed($)", "T[( #( #0 )* )](Iterator::map(P0.kind@CompositeIRKind::Unnamed.0,|1|{T[#0 #1 ,](%s,ToTokensWithSettings::to_token_stream(C1_0,%s))}))" % (CA("C1_0", FL2), ST2))])
     expect_term(ctx, rid, "fields/enum", ef["sp"], Ne.term(ef["body"]), exp_e,
                 "variant fields: same slots as the struct emitter without `pub` and without marker (sibling agreement)")
-    ca = q.fn1(ctx.P, "CompositeFieldIR::compact_attr", "scale_typegen")
-    if ca is None:
-        ctx.bad(rid, "missing-anchor/compact_attr", "", "CompositeFieldIR::compact_attr not found")
-    else:
-        expect_term(ctx, rid, "fields/compact-attr", ca["sp"], _norm(ctx, ca).term(ca["body"]),
-                    "then(P0.is_compact,T[# [ codec ( compact ) ]]())", "`#[codec(compact)]` iff the field is compact")
     bw = [b for b in q.fn_by_suffix(ctx.P, "ToTokensWithSettings>::to_tokens", "scale_typegen") if "CompositeFieldIR as" in b["path"]]
     if len(bw) != 1:
         ctx.bad(rid, "missing-anchor/CompositeFieldIR::to_tokens", "", "impl ToTokensWithSettings for CompositeFieldIR not found")
@@ -880,27 +875,27 @@ def phantom_data(ctx, rid):
 
 
 def parent_params_visitor(ctx, rid):
-    """K2: the used-parameter collector visits every child of all 7 TypePathType variants"""
-    hits = [(b, ms) for b, ms in q.fns_with_match_on(ctx.P, is_tpt, GEN) if any("BTreeSet<typegen::type_path::TypeParameter" in t for t in b.get("inputs", []))]
-    fn = q.anchor_fn(ctx, rid, "used-parameter collector (match on TypePathType, takes &mut BTreeSet<TypeParameter>)", hits)
-    if fn is None:
-        return
-    b, ms = fn
-    t = show(_norm(ctx, b).term(b["body"]), 10 ** 5)
+    """K2: the used-parameter collector visits every child of all 7 TypePathType variants (private helpers between the recursive
+    collector and the variants are looked through)"""
     R = "TypePath::parent_type_params_recurse"
-    exp = ("match(P0){TypePathType::Path{params:$}=>for(P0@TypePathType::Path.params){%s(elem(P0@TypePathType::Path.params),P1)};"
-           "TypePathType::Vec{of:$}=>%s(P0@TypePathType::Vec.of,P1);TypePathType::Array{of:$}=>%s(P0@TypePathType::Array.of,P1);"
-           "TypePathType::Tuple{elements:$}=>for(P0@TypePathType::Tuple.elements){%s(elem(P0@TypePathType::Tuple.elements),P1)};"
-           "TypePathType::Primitive{}=>();TypePathType::Compact{inner:$}=>%s(P0@TypePathType::Compact.inner,P1);"
-           "TypePathType::BitVec{bit_order_type:$,bit_store_type:$}=>{%s(P0@TypePathType::BitVec.bit_order_type,P1);%s(P0@TypePathType::BitVec.bit_store_type,P1)}}") % ((R,) * 7)
-    alt = exp.replace("{%s(P0@TypePathType::BitVec.bit_order_type,P1);%s(P0@TypePathType::BitVec.bit_store_type,P1)}" % (R, R),
-                      "{%s(P0@TypePathType::BitVec.bit_store_type,P1);%s(P0@TypePathType::BitVec.bit_order_type,P1)}" % (R, R))
-    expect_term(ctx, rid, "parent-params/visitor", b["sp"], t, [exp, alt], "every TypePath child of every variant is visited (Path.params, Vec.of, Array.of, Tuple.elements, Compact.inner, BitVec store+order)")
-    rec = q.fn1(ctx.P, "TypePath::parent_type_params_recurse", "scale_typegen")
-    if rec is not None:
-        expect_term(ctx, rid, "parent-params/leaf", rec["sp"], _norm(ctx, rec).term(rec["body"]),
-                    "match(P0.0){TypePathInner::Parameter($)=>BTreeSet::insert(P1,P0.0@TypePathInner::Parameter.0);TypePathInner::Type($)=>TypePathType::parent_type_params(P0.0@TypePathInner::Type.0,P1)}",
-                    "a parameter leaf is inserted into the accumulator; concrete types recurse")
+    rec = q.fn1(ctx.P, R, "scale_typegen")
+    if rec is None or not any("BTreeSet<typegen::type_path::TypeParameter" in t for t in rec.get("inputs", [])):
+        ctx.bad(rid, "missing-anchor/used-parameter collector", "", "the recursive used-parameter collector (`%s`, takes &mut BTreeSet<TypeParameter>) was not found" % R)
+        return
+    t = show(_norm(ctx, rec).term(rec["body"]), 10 ** 5)
+    A = "P0.0@TypePathInner::Type.0"
+    visit = ("match(%s){TypePathType::Path{params:$}=>for(%s@TypePathType::Path.params){%s(elem(%s@TypePathType::Path.params),P1)};"
+             "TypePathType::Vec{of:$}=>%s(%s@TypePathType::Vec.of,P1);TypePathType::Array{of:$}=>%s(%s@TypePathType::Array.of,P1);"
+             "TypePathType::Tuple{elements:$}=>for(%s@TypePathType::Tuple.elements){%s(elem(%s@TypePathType::Tuple.elements),P1)};"
+             "TypePathType::Primitive{}=>();TypePathType::Compact{inner:$}=>%s(%s@TypePathType::Compact.inner,P1);"
+             "TypePathType::BitVec{bit_order_type:$,bit_store_type:$}=>{%s(%s@TypePathType::BitVec.bit_order_type,P1);%s(%s@TypePathType::BitVec.bit_store_type,P1)}}") \
+        % (A, A, R, A, R, A, R, A, A, R, A, R, A, R, A, R, A)
+    alt = visit.replace("{%s(%s@TypePathType::BitVec.bit_order_type,P1);%s(%s@TypePathType::BitVec.bit_store_type,P1)}" % (R, A, R, A),
+                        "{%s(%s@TypePathType::BitVec.bit_store_type,P1);%s(%s@TypePathType::BitVec.bit_order_type,P1)}" % (R, A, R, A))
+    exp = "match(P0.0){TypePathInner::Parameter($)=>BTreeSet::insert(P1,P0.0@TypePathInner::Parameter.0);TypePathInner::Type($)=>%s}"
+    expect_term(ctx, rid, "parent-params/visitor", rec["sp"], t, [exp % visit, exp % alt],
+                "a parameter leaf is inserted into the accumulator; every TypePath child of every variant of a concrete type is visited "
+                "(Path.params, Vec.of, Array.of, Tuple.elements, Compact.inner, BitVec store+order)")
     top = q.fn1(ctx.P, "TypePath::parent_type_params", "scale_typegen")
     if top is not None:
         expect_term(ctx, rid, "parent-params/entry", top["sp"], _norm(ctx, top).term(top["body"]), "mut[BTreeSet::new();TypePath::parent_type_params_recurse(P0,&self)]",
